@@ -2,7 +2,7 @@
 import core
 import gen
 from core import PANIC, ANY, NOPANIC, opt, Some
-from props.common import default_encode, default_decode, split_range
+from props.common import thorough_aux, default_encode, default_decode, split_range
 
 PROP = 'C05'
 BIN = 'c05'
@@ -152,3 +152,6 @@ REQUIRED = ['amount>=BITS', 'amount>=BITS (width not a power of two)', 'amount>=
 
 def floors(st, tier):
     return ['class %r never observed' % c for c in REQUIRED if st['classes'].get(c, 0) == 0]
+
+
+extra_passes = thorough_aux('props.c05', ('miri',))
